@@ -2,7 +2,7 @@
 (* C03: every user message sent to a local actor ends processed, stashed or  *)
 (* dead-lettered exactly once; nothing happens to messages sent after Stop. *)
 EXTENDS Integers, Sequences, FiniteSets, TLC, Json
-VARIABLES l, bad, sent, tgt, kind, delivered, dl, stash, requeued, zombies, stopped, qstash, qphase
+VARIABLES l, bad, sent, tgt, kind, delivered, dl, stash, requeued, zombies, stopped, qstash, qphase, launched, calm, okAtTell
 
 (***************************************************************************)
 (* Trace alphabet (one JSON object per line, totally ordered by the turn   *)
@@ -22,16 +22,19 @@ Get(f, k, d) == IF k \in DOMAIN f THEN f[k] ELSE d
 Put(f, k, v) == [x \in DOMAIN f \cup {k} |-> IF x = k THEN v ELSE f[x]]
 Flag(rule) == IF bad = "" THEN rule ELSE bad
 Range(s) == {s[i] : i \in 1..Len(s)}
-vars == <<l, bad, sent, tgt, kind, delivered, dl, stash, requeued, zombies, stopped, qstash, qphase>>
-Fresh == sent = {} /\ tgt = <<>> /\ kind = <<>> /\ delivered = {} /\ dl = {} /\ stash = <<>> /\ requeued = {} /\ zombies = {} /\ stopped = FALSE /\ qstash = <<>> /\ qphase = ""
-FreshNext == sent' = {} /\ tgt' = <<>> /\ kind' = <<>> /\ delivered' = {} /\ dl' = {} /\ stash' = <<>> /\ requeued' = {} /\ zombies' = {} /\ stopped' = FALSE /\ qstash' = <<>> /\ qphase' = ""
+vars == <<l, bad, sent, tgt, kind, delivered, dl, stash, requeued, zombies, stopped, qstash, qphase, launched, calm, okAtTell>>
+Fresh == sent = {} /\ tgt = <<>> /\ kind = <<>> /\ delivered = {} /\ dl = {} /\ stash = <<>> /\ requeued = {} /\ zombies = {} /\ stopped = FALSE /\ qstash = <<>> /\ qphase = "" /\ launched = {} /\ calm = TRUE /\ okAtTell = {}
+FreshNext == sent' = {} /\ tgt' = <<>> /\ kind' = <<>> /\ delivered' = {} /\ dl' = {} /\ stash' = <<>> /\ requeued' = {} /\ zombies' = {} /\ stopped' = FALSE /\ qstash' = <<>> /\ qphase' = "" /\ launched' = {} /\ calm' = TRUE /\ okAtTell' = {}
 Init == l = 1 /\ bad = "" /\ Fresh
 OnTell ==
     /\ (Ev.e = "Tell")
     /\ sent' = sent \cup {Ev.m} /\ tgt' = Put(tgt, Ev.m, Ev.a) /\ kind' = Put(kind, Ev.m, Ev.s)
-    /\ UNCHANGED <<bad, delivered, dl, stash, requeued, zombies, stopped, qstash, qphase>>
+    \* the target has been launched and nothing has been killed or has failed so far: it is certainly running
+    /\ okAtTell' = IF calm /\ Ev.a \in launched /\ ~stopped THEN okAtTell \cup {Ev.m} ELSE okAtTell
+    /\ UNCHANGED <<bad, delivered, dl, stash, requeued, zombies, stopped, qstash, qphase, launched, calm>>
 OnDeliv ==
     /\ (Ev.e = "Deliv")
+    /\ launched' = IF Ev.k = "launch" THEN launched \cup {Ev.a} ELSE launched
     /\ IF Ev.k # "user" THEN UNCHANGED <<delivered, requeued, bad>>
        ELSE /\ delivered' = delivered \cup {Ev.m}
             /\ requeued' = requeued \ {Ev.m}
@@ -40,39 +43,40 @@ OnDeliv ==
                        ELSE IF Ev.m \in dl THEN Flag("DeliveredAndDeadLettered")
                        ELSE IF Ev.m \in delivered /\ Ev.m \notin requeued THEN Flag("DeliveredTwice")
                        ELSE bad
-    /\ UNCHANGED <<sent, tgt, kind, dl, stash, zombies, stopped, qstash, qphase>>
+    /\ UNCHANGED <<sent, tgt, kind, dl, stash, zombies, stopped, qstash, qphase, calm, okAtTell>>
 OnStashed ==
     /\ (Ev.e = "Stashed")
     /\ stash' = Put(stash, Ev.a, Append(Get(stash, Ev.a, <<>>), Ev.m))
-    /\ UNCHANGED <<bad, sent, tgt, kind, delivered, dl, requeued, zombies, stopped, qstash, qphase>>
+    /\ UNCHANGED <<bad, sent, tgt, kind, delivered, dl, requeued, zombies, stopped, qstash, qphase, launched, calm, okAtTell>>
 OnUnstashed ==
     /\ (Ev.e = "Unstashed")
     /\ LET s == Get(stash, Ev.a, <<>>) n == IF Ev.n <= Len(s) THEN Ev.n ELSE Len(s) IN
          /\ requeued' = requeued \cup {s[i] : i \in 1..n}
          /\ stash' = Put(stash, Ev.a, SubSeq(s, n + 1, Len(s)))
-    /\ UNCHANGED <<bad, sent, tgt, kind, delivered, dl, zombies, stopped, qstash, qphase>>
+    /\ UNCHANGED <<bad, sent, tgt, kind, delivered, dl, zombies, stopped, qstash, qphase, launched, calm, okAtTell>>
 OnDL ==
     /\ (Ev.e = "DL")
     /\ IF Ev.k # "user" THEN UNCHANGED <<dl, bad>>
        ELSE /\ dl' = dl \cup {Ev.m}
             /\ bad' = IF stopped /\ Get(kind, Ev.m, "") = "afterstop" THEN Flag("WorkAfterStop")
                        ELSE IF Ev.m \in dl THEN Flag("DeadLetteredTwice")
+                       ELSE IF calm /\ Ev.m \in okAtTell THEN Flag("RunningTargetProcesses")
                        ELSE IF Ev.m \in delivered /\ Ev.m \notin requeued THEN Flag("DeliveredAndDeadLettered")
                        ELSE bad
-    /\ UNCHANGED <<sent, tgt, kind, delivered, stash, requeued, zombies, stopped, qstash, qphase>>
+    /\ UNCHANGED <<sent, tgt, kind, delivered, stash, requeued, zombies, stopped, qstash, qphase, launched, calm, okAtTell>>
 OnHook ==
     /\ (Ev.e = "Hook")
     /\ zombies' = IF Ev.v = 0 /\ Ev.k \in {"restarted", "prelaunch"} THEN zombies \cup {Ev.a} ELSE zombies
-    /\ UNCHANGED <<bad, sent, tgt, kind, delivered, dl, stash, requeued, stopped, qstash, qphase>>
+    /\ UNCHANGED <<bad, sent, tgt, kind, delivered, dl, stash, requeued, stopped, qstash, qphase, launched, calm, okAtTell>>
 OnQBegin ==
     /\ (Ev.e = "QBegin")
     /\ qstash' = <<>> /\ qphase' = Ev.s
-    /\ UNCHANGED <<bad, sent, tgt, kind, delivered, dl, stash, requeued, zombies, stopped>>
+    /\ UNCHANGED <<bad, sent, tgt, kind, delivered, dl, stash, requeued, zombies, stopped, launched, calm, okAtTell>>
 OnAState ==
     /\ (Ev.e = "AState")
     /\ qstash' = Put(qstash, Ev.a, Ev.n)
     /\ zombies' = IF Ev.s = "zombie" THEN zombies \cup {Ev.a} ELSE zombies
-    /\ UNCHANGED <<bad, sent, tgt, kind, delivered, dl, stash, requeued, stopped, qphase>>
+    /\ UNCHANGED <<bad, sent, tgt, kind, delivered, dl, stash, requeued, stopped, qphase, launched, calm, okAtTell>>
 OnQEnd ==
     /\ (Ev.e = "QEnd")
     /\ LET pending == {m \in sent : /\ Get(kind, m, "") # "afterstop"
@@ -81,14 +85,18 @@ OnQEnd ==
            \* a stash entry counts as a fate only while StashCount of the live actor accounts for it
            stashOk == \A a \in DOMAIN qstash : qstash[a] = Len(Get(stash, a, <<>>)) \/ qstash[a] = 0
        IN bad' = IF pending # {} THEN Flag("NoFate") ELSE IF ~stashOk THEN Flag("StashCount") ELSE bad
-    /\ UNCHANGED <<sent, tgt, kind, delivered, dl, stash, requeued, zombies, stopped, qstash, qphase>>
+    /\ UNCHANGED <<sent, tgt, kind, delivered, dl, stash, requeued, zombies, stopped, qstash, qphase, launched, calm, okAtTell>>
 OnStopped ==
     /\ (Ev.e = "Stopped")
     /\ stopped' = TRUE
-    /\ UNCHANGED <<bad, sent, tgt, kind, delivered, dl, stash, requeued, zombies, qstash, qphase>>
+    /\ UNCHANGED <<bad, sent, tgt, kind, delivered, dl, stash, requeued, zombies, qstash, qphase, launched, calm, okAtTell>>
+OnKillCall_Fail ==
+    /\ (Ev.e = "KillCall" \/ Ev.e = "Fail")
+    /\ calm' = FALSE
+    /\ UNCHANGED <<bad, sent, tgt, kind, delivered, dl, stash, requeued, zombies, stopped, qstash, qphase, launched, okAtTell>>
 OnReset == Ev.e = "Reset" /\ FreshNext /\ UNCHANGED bad
-OnOther == Ev.e \notin {"Tell", "Deliv", "Stashed", "Unstashed", "DL", "Hook", "QBegin", "AState", "QEnd", "Stopped", "Reset"} /\ UNCHANGED <<bad, sent, tgt, kind, delivered, dl, stash, requeued, zombies, stopped, qstash, qphase>>
-Next == l <= Len(TLog) /\ l' = l + 1 /\ (OnTell \/ OnDeliv \/ OnStashed \/ OnUnstashed \/ OnDL \/ OnHook \/ OnQBegin \/ OnAState \/ OnQEnd \/ OnStopped \/ OnReset \/ OnOther)
+OnOther == Ev.e \notin {"KillCall", "Fail", "Tell", "Deliv", "Stashed", "Unstashed", "DL", "Hook", "QBegin", "AState", "QEnd", "Stopped", "Reset"} /\ UNCHANGED <<bad, sent, tgt, kind, delivered, dl, stash, requeued, zombies, stopped, qstash, qphase, launched, calm, okAtTell>>
+Next == l <= Len(TLog) /\ l' = l + 1 /\ (OnKillCall_Fail \/ OnTell \/ OnDeliv \/ OnStashed \/ OnUnstashed \/ OnDL \/ OnHook \/ OnQBegin \/ OnAState \/ OnQEnd \/ OnStopped \/ OnReset \/ OnOther)
 Spec == Init /\ [][Next]_vars
 
 Ok == bad = ""
